@@ -642,8 +642,14 @@ def check_symbol_tables(run, cov):
     if set(table) != {"x", "y"}:
         run.violation("sympy_to_casadi/cse/table", f"table after cse conversion: {sorted(table)}", {})
     else:
-        f = ca.Function("f", [table["x"], table["y"]], [e1, e0])
-        for xv, yv in ((0.3, 1.1), (-2.5, 2.0), (2.0, 2.0)):
+        try:
+            f = ca.Function("f", [table["x"], table["y"]], [e1, e0])
+        except RuntimeError as ex:      # the converted expression depends on something that is not a variable of the table
+            free = [str(v) for v in ca.symvar(ca.vertcat(e1, e0)) if str(v) not in ("x", "y")]
+            run.violation("sympy_to_casadi/cse/foreign_variable", f"with cse=True the result depends on variables that are not in the symbol table: {free}",
+                          {"expr": str(E), "free": free, "error": str(ex)[-200:]})
+            f = None
+        for xv, yv in ((0.3, 1.1), (-2.5, 2.0), (2.0, 2.0)) if f is not None else ():
             r1, r0 = [float(v) for v in f(xv, yv)]
             run.count("evaluations")
             if not close(r1, r0):
